@@ -529,8 +529,8 @@ pub struct ExecResult {
 
 pub type ThreadBody = Box<dyn FnOnce() + Send + 'static>;
 
-const PARK_TIMEOUT: Duration = Duration::from_secs(20);
-const BLOCKED_AFTER: Duration = Duration::from_millis(300);
+const PARK_TIMEOUT: Duration = Duration::from_secs(60);
+const BLOCKED_AFTER: Duration = Duration::from_secs(3);
 
 fn enabled_now(i: &Inner, ch: &dyn Chooser) -> Vec<Enabled> {
     let mut v = vec![];
